@@ -482,11 +482,15 @@ def main():
 
     # known findings
     known = set()
+    known_back_name = {}   # recorded bij finding -> the member its token is recorded to resolve to (None: itself)
     if os.path.exists(KF_PATH):
         for e in json.load(open(KF_PATH)):
             if e.get("property") == "C20" and e.get("status") == "known":
                 for s in e.get("signature", "").split(";"):
-                    known.add(s.strip())
+                    base, _, back = s.strip().partition("->")
+                    known.add(base)
+                    if base.startswith("bij:"):
+                        known_back_name[base] = back or None
 
     # --- enumerations
     classes = xml_enums()
@@ -601,6 +605,14 @@ def main():
 
     # --- known-failing ids
     known_bij = [r["id"] for e in enums for r in e["rows"] if r["sig"] in known]
+    known_back = []
+    for e in enums:
+        by_name = {r["name"]: r["id"] for r in e["rows"]}
+        for r in e["rows"]:
+            if r["sig"] in known:
+                b = known_back_name.get(r["sig"])
+                # a recorded member that no longer exists resolves to an id no row has: the obligation then fails
+                known_back.append((r["id"], by_name.get(b, 10 ** 9) if b else r["id"]))
     known_tok = []
     for u in uses:
         e = enums[u["enum_id"]]
@@ -650,6 +662,7 @@ def main():
             "; ".join("(%d, %s)" % (t["stype_id"], cps(t["token"])) for t in r["tokens"]),
             "None" if r["inspected"] is None else "Some %s" % coq_z(r["inspected"])) for r in crow))
     L.append("Definition known_bij : list N := [%s]." % "; ".join(str(i) for i in known_bij))
+    L.append("Definition known_back : list (N * N) := [%s]." % "; ".join("(%d, %d)" % p for p in known_back))
     L.append("Definition known_tok : list (N * N) := [%s]." % "; ".join("(%d, %d)" % p for p in known_tok))
     L.append("Definition known_presets : list N := [%s]." % "; ".join(str(i) for i in known_pre))
     L.append("Definition known_charts : list N := [%s]." % "; ".join(str(i) for i in known_chart))
